@@ -215,7 +215,24 @@ def _interp(op):
     return SymTensor.from_elem(batch + (li.shape[-2], ri.shape[-2]), K.dtype, elem)
 
 
+def _cat(op):
+    parts = [D(a) for a in op._args]
+    dim = op._kwargs.get("dim", 0)
+    n = len(parts[0].shape)
+    return O.cat(parts, dim if dim < 0 else dim - n)
+
+
+def _chol(op):
+    """upper ? R^T R : L L^T  (the flag is read from the constructed object's ``upper`` attribute together
+    with the factor it stores: the constructor may normalise an upper factor to the equivalent lower one)"""
+    r = D(op._args[0])
+    if getattr(op, "upper", False):
+        return O.matmul(O.transpose(r, -1, -2), r)
+    return O.matmul(r, O.transpose(r, -1, -2))
+
+
 _TABLE = {
+    "CatLinearOperator": _cat,
     "InterpolatedLinearOperator": _interp,
     "DenseLinearOperator": _dense,
     "DiagLinearOperator": _diag,
@@ -233,7 +250,7 @@ _TABLE = {
     "MatmulLinearOperator": _matmul,
     "RootLinearOperator": _root,
     "LowRankRootLinearOperator": _root,
-    "CholLinearOperator": _root,
+    "CholLinearOperator": _chol,
     "KroneckerProductLinearOperator": _kron,
     "KroneckerProductTriangularLinearOperator": _kron,
     "KroneckerProductDiagLinearOperator": _kron,
